@@ -479,7 +479,7 @@ iface text.Reader.SkipSpaces
   ensures rdOK(recv) && (result2 <==> rdLive(recv))
   modifies rdRep, rdLive, rdLine, rdStart, rdStop, rdPad, rdRem
 func skipSpacesReader
-  requires rdOK(r)
+  requires r != nil && rdOK(r)
   ensures rdOK(r) && (result2 <==> rdLive(r))
   modifies rdRep, rdLive, rdLine, rdStart, rdStop, rdPad, rdRem
   loop 0 inv rdOK(r) && chars >= 0
@@ -491,7 +491,7 @@ iface text.Reader.SkipBlankLines
   ensures rdOK(recv) && (result2 <==> rdLive(recv))
   modifies rdRep, rdLive, rdLine, rdStart, rdStop, rdPad, rdRem
 func skipBlankLinesReader
-  requires rdOK(r)
+  requires r != nil && rdOK(r)
   ensures rdOK(r) && (result2 <==> rdLive(r))
   modifies rdRep, rdLive, rdLine, rdStart, rdStop, rdPad, rdRem
   loop 0 inv rdOK(r) && lines >= 0
